@@ -21,20 +21,20 @@ MCSplitChains == TRUE
 \* DATE: month and day arguments -40..60 as the property quantifies
 MCArgLo == -40
 MCArgHi == 60
-\* quick: the 1900 quirk, an ordinary leap / non-leap pair, the last year,
-\* a two-digit year (= 1900 + year), and the two illegal years
-MCDateYears  == {-1, 4, 1900, 1901, 2009, 9999, 10000}
+\* quick: the year of the 1900 quirk, an ordinary year, the last year, a
+\* two-digit year (4 = 1904, a leap year), and the two illegal years
+MCDateYears  == {-1, 4, 1900, 2009, 9999, 10000}
 BigDateYears == MCDateYears \cup
-  {0, 1, 100, 1899, 1903, 1904, 1999, 2000, 2001, 2023, 2024, 2100, 2400,
+  {0, 1, 100, 1901, 1899, 1903, 1904, 1999, 2000, 2001, 2023, 2024, 2100, 2400,
    4000, 9998}
 
 \* EOMONTH / EDATE: month shifts -1200..1200 from these start days
 MCShiftLo == -1200
 MCShiftHi == 1200
-MCShiftStarts == {-1, 0, 1, 31, 59, 60, 61, 366, 39844, 39872, 43890,
-                  73050, 2958101, 2958465, 2958466}
+MCShiftStarts == {-1, 0, 1, 59, 60, 61, 39844, 43890, 73050, 2958465, 2958466}
 BigShiftStarts == MCShiftStarts \cup
-  {28, 29, 30, 32, 58, 62, 90, 91, 121, 365, 367, 425, 1461, 1520, 1521,
+  {28, 29, 30, 31, 32, 58, 62, 90, 91, 121, 365, 366, 367, 425, 1461, 1520,
+   1521, 39872, 2958101,
    36525, 36584, 36585, 36950, 39507, 39813, 39814, 39903, 40000, 43861,
    43889, 43891, 43921, 44255, 45000, 45291, 45351, 45352, 73049, 73108,
    73109, 73110, 109574, 109633, 182623, 182683, 1000000, 2000000,
